@@ -114,6 +114,28 @@ def _prefix_kind(name):
     return None
 
 
+def clock_names(d):
+    """Names used as posedge clocks anywhere in the design."""
+    if getattr(d, '_clock_names', None) is None:
+        out = set()
+        for mi in d.mods.values():
+            for al in mi.always:
+                if al.sens != '*':
+                    for e, x in al.sens:
+                        if e == 'posedge' and hasattr(x, 'name'):
+                            out.add(x.name)
+            # ... and as clock pins: header inputs / connected ports called clk, clk2, ...
+            for n, sy in mi.syms.items():
+                if sy.dir == 'input' and re.match(r'^clk\d*$', n):
+                    out.add(n)
+            for inst in mi.instances:
+                for pn, e in inst.conns:
+                    if re.match(r'^clk\d*$', pn):
+                        out.add(pn)
+        d._clock_names = out
+    return d._clock_names
+
+
 def classify(dg, d, text, label):
     """Mechanism key + classifier fields for one diagnostic (narrow on purpose: see known_findings.json)."""
     code = dg.code
@@ -150,6 +172,15 @@ def classify(dg, d, text, label):
             return 'collision_after_prefixing', dict(code=code, prefix=pk)
         fields['kind'] = 'other'
         return 'duplicate_declaration', fields
+    clocks = clock_names(d)
+    if len(clocks) > 1:
+        # designs with more than one clock-driver name (secondary clock domains)
+        if code == 'port_not_found' and info.get('port') in clocks:
+            return 'named_module_shared_across_clock_domains', dict(code=code, clause='clock port')
+        if code == 'input_unconnected' and dg.detail.rsplit('.', 1)[-1] in clocks:
+            return 'named_module_shared_across_clock_domains', dict(code=code, clause='clock port')
+        if code == 'undeclared_identifier' and dg.detail in clocks and 'Memory' in fam:
+            return 'body_names_the_default_clock_in_another_domain', dict(code=code, module_family=fam)
     if code == 'port_not_found':
         return 'shared_module_missing_port', dict(code=code, shared_module_family=family(info.get('target', '?')), port=info.get('port'))
     if code == 'undriven_net':
@@ -362,6 +393,33 @@ def reuse_designs():
                 py4hw.Reg(dut, 'r%d' % k, d, q, reset=r, reset_value=rv)
             return [d, r], qs
         out.append(('Reg %d bits, five reset values' % w, f))
+    # flag outputs on wires of different widths under one operand width (a constructor that accepts the wide flag must not bind it
+    # to a body emitted for the 1-bit one; refusing the wide flag, as Sign does, is fine)
+    for fw in (2, 4):
+        def f(hw, dut, fw=fw):
+            a = hw.wire('a', 8); s1 = hw.wire('s1'); s2 = hw.wire('s2', fw)
+            py4hw.Sign(dut, 'sa', a, s1); py4hw.Sign(dut, 'sb', a, s2)
+            return [a], [s1, s2]
+        out.append(('Sign flag 1 bit then %d bits' % fw, f))
+
+        def f(hw, dut, fw=fw):
+            a = hw.wire('a', 8); r1 = hw.wire('r1', 8); r2 = hw.wire('r2', 8); i1 = hw.wire('i1'); i2 = hw.wire('i2', fw)
+            py4hw.Abs(dut, 'a1', a, r1, inverted=i1); py4hw.Abs(dut, 'a2', a, r2, inverted=i2)
+            return [a], [r1, r2, i1, i2]
+        out.append(('Abs inverted flag 1 bit then %d bits' % fw, f))
+
+        def f(hw, dut, fw=fw):
+            a = hw.wire('a', 8); b = hw.wire('b', 8); e1 = hw.wire('e1'); e2 = hw.wire('e2', fw)
+            py4hw.Equal(dut, 'q1', a, b, e1); py4hw.Equal(dut, 'q2', a, b, e2)
+            return [a, b], [e1, e2]
+        out.append(('Equal flag 1 bit then %d bits' % fw, f))
+
+        def f(hw, dut, fw=fw):
+            a = hw.wire('a', 8); b = hw.wire('b', 8)
+            o = [hw.wire(n, w) for n, w in (('g1', 1), ('e1', 1), ('l1', 1), ('g2', fw), ('e2', fw), ('l2', fw))]
+            py4hw.Comparator(dut, 'c1', a, b, o[0], o[1], o[2]); py4hw.Comparator(dut, 'c2', a, b, o[3], o[4], o[5])
+            return [a, b], o
+        out.append(('Comparator flags 1 bit then %d bits' % fw, f))
     for flags in (0, 1):
         def f(hw, dut, flags=flags):
             din = hw.wire('din', 4); dout = hw.wire('dout', 4); push = hw.wire('push'); pop = hw.wire('pop')
@@ -589,6 +647,25 @@ def run_check(run, tier, seed, shard):
             continue
         judge_text(run, text, plan['name'], dict(workload='random', plan=plan))
         check_interchangeable(run, des.dut, plan['name'], dict(workload='random', plan=plan))
+    # (k) secondary clock domains: sub-blocks with their own ClockDriver on a net of the enclosing block
+    n = 240 if quick else 8000
+    for i in shard_slice(range(n), shard):
+        if time.time() > deadline or run.too_many:
+            break
+        rnd = rng(seed, 'c03-clockdomains', i)
+        g = dutgen.Gen(rnd, max_width=8, clock_domains=True)
+        plan = g.plan(n_nodes=rnd.randint(5, 14), depth=rnd.randint(1, 2))
+        if not dutgen.has_clock_domains(plan['scope']):
+            continue
+        try:
+            des = dutgen.instantiate(plan)
+            with muted():
+                text = py4hw.VerilogGenerator(des.dut).getVerilogForHierarchy()
+        except Exception:
+            run.count('refused')
+            continue
+        run.count('clock_domain_texts')
+        judge_text(run, text, plan['name'] + '/clockdomains', dict(workload='clock_domains', plan=plan))
     # (i) declared external black boxes: named modules handed in through createdStructures are not emitted and may be instantiated
     import py4hw.rtl_generation as rg
     n = 40 if quick else 4000
